@@ -46,6 +46,9 @@ pub enum RErr {
     Error(&'static str),
     /// not determined by the documentation: no verdict
     Unspec(&'static str),
+    /// an `assert` in the expression does not hold / a typed argument is out of range:
+    /// the candidate rule is discarded (not an error by itself)
+    Constraint,
 }
 
 pub type RRes = Result<RVal, RErr>;
@@ -163,6 +166,8 @@ pub enum E {
     Slice(Box<E>, Box<E>, Box<E>), // inner, hi, lo
     Short(Box<E>, Box<E>),         // inner, n
     Call(String, Vec<E>),
+    /// `{ e1, e2, ... }`: evaluated in order, value of the last
+    Block(Vec<E>),
 }
 
 impl E {
@@ -194,6 +199,7 @@ impl E {
             E::Slice(..) => L_SLICE,
             E::Short(..) => L_SHORT,
             E::Call(..) => L_CALL,
+            E::Block(..) => L_LEAF,
         }
     }
     pub fn depth(&self) -> usize {
@@ -205,6 +211,7 @@ impl E {
             E::Slice(a, b, c) => 1 + a.depth().max(b.depth()).max(c.depth()),
             E::Short(a, b) => 1 + a.depth().max(b.depth()),
             E::Call(_, args) => 1 + args.iter().map(|a| a.depth()).max().unwrap_or(0),
+            E::Block(es) => 1 + es.iter().map(|a| a.depth()).max().unwrap_or(0),
         }
     }
 
@@ -249,6 +256,10 @@ impl E {
             E::Call(f, args) => {
                 let a: Vec<String> = args.iter().map(|a| E::wrap(a, 0, full)).collect();
                 format!("{}({})", f, a.join(", "))
+            }
+            E::Block(es) => {
+                let a: Vec<String> = es.iter().map(|a| E::wrap(a, 0, full)).collect();
+                format!("{{ {} }}", a.join(", "))
             }
         }
     }
@@ -453,7 +464,23 @@ fn bitop(a: &Z, b: &Z, f: fn(bool, bool) -> bool) -> Z {
     }
 }
 
-pub type Env = HashMap<String, RVal>;
+#[derive(Clone, Debug, Default)]
+pub struct Env {
+    pub vars: HashMap<String, RVal>,
+    /// size-only evaluation: `assert` always holds (used to read a production's static size)
+    pub placeholder: bool,
+}
+impl Env {
+    pub fn new() -> Env {
+        Env::default()
+    }
+    pub fn get(&self, n: &str) -> Option<&RVal> {
+        self.vars.get(n)
+    }
+    pub fn set(&mut self, n: &str, v: RVal) {
+        self.vars.insert(n.to_string(), v);
+    }
+}
 
 /// integer view of an operand: ints as they are, strings as their encoded bytes (sized 8*len)
 fn intlike(v: &RVal, sign_matters: bool) -> Result<Option<(Z, Option<usize>)>, RErr> {
@@ -641,6 +668,29 @@ pub fn eval(e: &E, env: &Env) -> RRes {
                 return Err(RErr::Unspec("zero-width slice"));
             }
             Ok(RVal::Int(low_bits(&z, n), Some(n)))
+        }
+        E::Block(es) => {
+            let mut last = RVal::Void;
+            for x in es {
+                last = eval(x, env)?;
+            }
+            Ok(last)
+        }
+        E::Call(f, args) if f == "assert" => {
+            if args.is_empty() || args.len() > 2 {
+                return Err(RErr::Error("wrong number of arguments"));
+            }
+            match eval(&args[0], env)? {
+                RVal::Bool(true) => Ok(RVal::Void),
+                RVal::Bool(false) => {
+                    if env.placeholder {
+                        Ok(RVal::Void)
+                    } else {
+                        Err(RErr::Constraint)
+                    }
+                }
+                _ => Err(RErr::Error("assert of a non-boolean")),
+            }
         }
         E::Call(f, args) => {
             let mut vals = vec![];
